@@ -1,6 +1,6 @@
 // Reference model of the KV contract shared by the C16 obligations. c16_model_aof.go and c16_model_sqlite3.go are this
 // file with the package clause changed (sed 's/^package memory$/package aof/'); keep them identical otherwise.
-package memory
+package sqlite3
 
 import (
 	"context"
